@@ -10,6 +10,9 @@
 //   pool scs sc=<id> st=IDLE|CONNECTING|READY|TF|SHUTDOWN
 //   pool factory fail=<n>                    the next n NewSubConn calls fail
 //   pool pick2 a=<id> b=<id> picker=<n>      two plain picks run concurrently while the harness stalls gb.mu
+//   pool doneswap call=<id> reply=<key>/ sc=<id>   a BIND call completes successfully and is stopped right before it takes
+//                                            the balancer lock to record its keys; the replacement connection <sc> is
+//                                            reported READY (the swap) meanwhile; then the completion continues
 //   pool done2 a=<id> b=<id>                 two calls complete with a client-side deadline error at the same time while
 //                                            the harness stalls gb.mu (both reach refresh() together)
 //                                            => <events> ; a:<result> ; b:<result> ; <digest>
@@ -75,6 +78,18 @@ func verifHookNewSubConn() {
 	if atomic.CompareAndSwapInt32(&verifHoldArmed, 1, 0) {
 		rel := make(chan struct{})
 		verifHoldParked <- rel
+		<-rel
+	}
+}
+
+// second hook, in front of the lock of bindSubConn / bindSubConnRef (operation `doneswap`)
+var verifBindArmed int32
+var verifBindParked = make(chan chan struct{}, 1)
+
+func verifHookBind() {
+	if atomic.CompareAndSwapInt32(&verifBindArmed, 1, 0) {
+		rel := make(chan struct{})
+		verifBindParked <- rel
 		<-rel
 	}
 }
@@ -593,6 +608,8 @@ func (h *vPool) exec(line string) string {
 		res = h.doPick2(a)
 	case "done2":
 		res = h.doDone2(a)
+	case "doneswap":
+		res = h.doDoneSwap(a)
 	case "rrburst":
 		res = h.doRRBurst(a)
 	case "ctxdone":
@@ -826,6 +843,57 @@ func (h *vPool) doPick2(a map[string]string) string {
 		}
 	}
 	return strings.Join(out, " ; ")
+}
+
+// doDoneSwap: see the header. The completion goroutine is parked by the overlay's hook in front of bindSubConn's
+// lock, i.e. after the callback has read which connection its channel uses.
+func (h *vPool) doDoneSwap(a map[string]string) string {
+	id, _ := strconv.Atoi(a["call"])
+	scid, _ := strconv.Atoi(a["sc"])
+	c, ok := h.calls[id]
+	sc, ok2 := h.cc.scs[scid]
+	if !ok || !ok2 || !verifBindHookInstalled {
+		return "bad-op"
+	}
+	delete(h.calls, id)
+	if c.reply != nil {
+		r := a["reply"]
+		if i := strings.IndexByte(r, '/'); i >= 0 {
+			c.reply.Key, c.reply.Keys = r[:i], splitList(r[i+1:])
+		} else {
+			c.reply.Key = r
+		}
+	}
+	atomic.StoreInt32(&verifBindArmed, 1)
+	doneCh := make(chan string, 1)
+	go func() {
+		doneCh <- guarded(func() string { c.done(balancer.DoneInfo{}); return "ok" })
+	}()
+	var rel chan struct{}
+	first := ""
+	select {
+	case rel = <-verifBindParked:
+	case first = <-doneCh: // nothing to bind: the completion ran through
+	case <-time.After(3 * time.Second):
+		return "HANG"
+	}
+	atomic.StoreInt32(&verifBindArmed, 0)
+	r2 := guarded(func() string {
+		h.b.UpdateSubConnState(sc, balancer.SubConnState{ConnectivityState: connectivity.Ready})
+		return "ok"
+	})
+	if rel != nil {
+		close(rel)
+		select {
+		case first = <-doneCh:
+		case <-time.After(3 * time.Second):
+			return "HANG"
+		}
+	}
+	if first != "ok" {
+		return first
+	}
+	return r2
 }
 
 // doDone2 completes two calls with a client-side deadline error from two goroutines while gb.mu is held by the
@@ -1332,8 +1400,17 @@ func (g *vGen) scenarioAffinityRefresh() {
 				})
 			}
 		}
+		raceSwap := r.Intn(2) == 0
 		add(func() string {
-			for sc := range h.gb.refreshingScRefs {
+			for sc, ref := range h.gb.refreshingScRefs {
+				if raceSwap && verifBindHookInstalled {
+					// a BIND call placed on the refreshing channel completes while the swap happens
+					for jj, id := range inflight {
+						if c, ok := h.calls[id]; ok && strconv.Itoa(c.sc) == scID(ref.subConn) {
+							return fmt.Sprintf("pool doneswap call=%d reply=late%d/ sc=%d", id, jj, sc.(*vSubConn).id)
+						}
+					}
+				}
 				return fmt.Sprintf("pool scs sc=%d st=READY", sc.(*vSubConn).id)
 			}
 			return ""
